@@ -191,10 +191,17 @@ func VerifC19Redecode(s1, s2, n, copyFirst int) {
 		return
 	}
 	b2 := verifBytes("second", n)
+	if copyFirst == 2 {
+		// the object is edited, then asked to decode the very bytes it was decoded from before:
+		// it must hold their names again (a shortcut for "same bytes as last time" would not)
+		_, fresh := verifName([]int{2})
+		l.Labels[0] = fresh
+		b2 = append([]byte(nil), b1...)
+	}
 	names2, st2 := refNames(b2)
 	target := &l
 	var cp Labels
-	if copyFirst != 0 {
+	if copyFirst == 1 {
 		cp = l
 		target = &cp
 	}
@@ -205,7 +212,7 @@ func VerifC19Redecode(s1, s2, n, copyFirst int) {
 		return
 	}
 	verifAssert((err2 == nil) == (st2 == refOK), "accept-iff-rfc-wellformed")
-	if copyFirst != 0 {
+	if copyFirst == 1 {
 		// decoding into a value copy leaves the first object as it was (what an object holds after
 		// a FAILED decoding into itself is not specified anywhere: nothing is asserted about it)
 		verifAssert(len(l.Labels) == len(all), "decoding-into-a-copy-leaves-the-names")
@@ -213,6 +220,11 @@ func VerifC19Redecode(s1, s2, n, copyFirst int) {
 	}
 	if err2 == nil && st2 == refOK {
 		verifAssert(len(target.Labels) == len(names2), "same-number-of-names")
+		if len(target.Labels) == len(names2) {
+			for i := range names2 {
+				verifAssert(verifSame([]byte(target.Labels[i]), refJoin(names2[i])), "name-as-rfc-reads-it")
+			}
+		}
 		verifAssert(verifSame(target.ToBytes(), b2), "unmodified-reencodes-to-original")
 	}
 	verifReach("end")
